@@ -61,6 +61,25 @@ func init() {
 	reg("verifTry", func(m *Machine, fn *ssa.Function, a []Value) Value {
 		return m.S.Bool(m.Try(func() { m.CallClosure(a[0].(*Closure), nil) }) != nil)
 	})
+	reg("verifDeadlocks", func(m *Machine, fn *ssa.Function, a []Value) Value {
+		dead := false
+		func() {
+			depth := m.depth
+			defer func() {
+				if r := recover(); r != nil {
+					if pe, ok := r.(*pathEnd); ok && pe.Kind == "deadlock" {
+						dead = true
+						m.depth = depth
+						m.Note("deadlock: " + pe.Msg)
+						return
+					}
+					panic(r)
+				}
+			}()
+			m.CallClosure(a[0].(*Closure), nil)
+		}()
+		return m.S.Bool(dead)
+	})
 	reg("verifBytesEq", func(m *Machine, fn *ssa.Function, a []Value) Value {
 		x, y := a[0].(Slice), a[1].(Slice)
 		if x.Len != y.Len {
